@@ -901,6 +901,7 @@ def run(ctx):
                         "QueuePacketConn.WriteTo is modelled as one atomic step; a carrier's pending ReadFrom/WriteTo fails once the carrier is closed",
                         "a carrier is closed when its Close() has RETURNED (model: LDCloseCarrier, a step of the dial loop itself); scripted carriers whose Close blocks until released, and real-time carriers whose Close takes 30-40 ms, record at every dial how many earlier carriers are not closed yet",
                         "clock: explicit for clientMapInner and for the outgoing queues with contents (in-package driver `qm`: the driver performs the bodies of WriteTo/trySend/OutgoingQueue on the inner map with the instant of the case, because the exported methods read time.Now()); real for the sweeper monitor (timeout 200 ms, slack 1 timeout)",
+                        "redialq: the driver is told queueSize (2048) to know when a user ReadFrom would block; the model runs the same machine with the queue contents carried along (Model/RedialQueue.v)",
                         "no aliasing of caller buffers: observed only (drivers overwrite every buffer after the call and every received slice), not a theorem: payloads are values in the model"]
     # container/heap and QueuePacketConn: black box
     rc, capo, err = vlib.run_impl(exe, [AREA + " cap"])
